@@ -44,7 +44,7 @@ func soak(engine string, rounds, aborters, readers int) map[string]any {
 		// free-running: chunked, one SSE event per chunk, 1 ms apart (the "pause" kind with k = first event)
 		return stack.Behaviour{Kind: "pause", Status: 200, Headers: [][2]string{{"Content-Type", "text/event-stream"}}, Body: full, Chunked: true, K: chunkSize, StallMs: 1, ChunkSz: chunkSize}
 	})
-	s, err := stack.Start(stack.Opts{Engine: engine, Balancer: "priority", EPs: []stack.EP{{Name: "S", Type: "openai", Priority: 1, Backend: be}}})
+	s, err := stack.Start(stack.Opts{Vary: stack.VaryFor("c18.soak", engine), Engine: engine, Balancer: "priority", EPs: []stack.EP{{Name: "S", Type: "openai", Priority: 1, Backend: be}}})
 	if err != nil {
 		return map[string]any{"start_err": err.Error()}
 	}
